@@ -24,6 +24,14 @@ def gen(rng, n):
         if rng.chance(1, 4):
             d["NDGRAM"] = rng.range(1, 20)
             d["DGRAM_SIZE"] = rng.choice([8, 100, 1000])
+        if rng.chance(1, 5):
+            # packets abandoned wholesale: 0-RTT rejection, Retry with early data outstanding
+            d["ZERO_RTT"] = rng.choice([1, 2])
+            d["RETRY"] = rng.choice([0, 2, 2])
+            d["STREAM_BYTES"] = rng.choice([700, 3000])
+        if rng.chance(1, 6):
+            d["MIGRATE_AT"] = rng.choice([40000, 90000])
+            d["MIGRATE_KIND"] = rng.below(2)
         if S.is_clean(d):
             d["CLEAN"] = 1
         cases.append(S.case_of(d))
